@@ -1428,6 +1428,9 @@ func c09JsStages(c *Ctx) error {
 	if err := c09JsStringStage(c, node, openSig); err != nil {
 		return err
 	}
+	if err := c09JsStmtModelStage(c); err != nil {
+		return err
+	}
 	for _, k := range known {
 		if k.Status != "open" {
 			continue
@@ -1625,6 +1628,72 @@ func c09JsStringStage(c *Ctx, node *c09JsNode, openSig map[string]string) error 
 		}
 		if cs.lit[0] != p.tok[0] {
 			st.Tag("hazard=requoted")
+		}
+	}
+	st.End()
+	return nil
+}
+
+// ---------- the statement printer model of C01 against the hypotheses of js_token_sep ----------
+
+func c09JsStmtModelStage(c *Ctx) error {
+	st := c.R.StartStage("c09-js-stmt-model", "programs of the C01 fragment (expression statements, if/else, return, throw, blocks, function declarations; generator of C01) through the statement printer model `jsTokens` (model.c09.js.stmt): the written token list must satisfy the four hypotheses of the theorem js_token_sep (tokOk, adjChain, headOk, goalsOk), the independent lexer must read the model's bytes back as exactly these tokens, and the bytes must be the output of the real js.Minifier (KeepVarNames); non-trivial = the model covers the program")
+	n := c.N(3000, 100000)
+	type pc struct {
+		src, enc string
+		ver      int
+	}
+	var ps []pc
+	var lines []string
+	for k := 0; k < n; k++ {
+		r := c.Rng.Fork()
+		g := &c01Gen{r: r, forms: c01AllForms()}
+		p := g.prog()
+		ver := c01Versions[r.Intn(len(c01Versions))]
+		ps = append(ps, pc{p.Src(), p.Enc(), ver})
+		lines = append(lines, "model.c09.js.stmt "+h.Bool(c01Ver2020(ver))+" "+h.HexS(p.Enc()))
+	}
+	replies, err := h.Eval(lines)
+	if err != nil {
+		return err
+	}
+	for i, p := range ps {
+		b, ok, msg := h.DecodeReply(replies[i])
+		if !ok {
+			st.Count(p.src, false)
+			if strings.Contains(msg, "unmodelled") {
+				st.Tag("unmodelled")
+			} else {
+				c.R.Add(h.Finding{Stage: st.Name, Kind: "diff", What: "model.c09.js.stmt failed", Input: h.Q([]byte(p.src)), Model: msg})
+			}
+			continue
+		}
+		items := h.DecodeListReply(b)
+		if len(items) != 3 {
+			continue
+		}
+		st.Count(p.src, true)
+		out, merr, crash := c01Minify(p.src, p.ver, true)
+		if crash != "" || merr != nil {
+			st.Tag("real-rejects")
+			continue
+		}
+		hyp, relex := string(items[0]) == "1", string(items[1]) == "1"
+		if hyp {
+			st.Tag("hypotheses=hold")
+		} else {
+			st.Tag("hypotheses=fail")
+			c.R.Add(h.Finding{Stage: st.Name, Kind: "diff", What: "the token list of the statement printer model violates a hypothesis of js_token_sep", Input: h.Q([]byte(p.src)), Model: h.Q(items[2])})
+		}
+		if relex {
+			st.Tag("relex=same-tokens")
+		} else {
+			c.R.Add(h.Finding{Stage: st.Name, Kind: "diff", What: "the independent lexer does not read the model's bytes back as the written tokens", Input: h.Q([]byte(p.src)), Model: h.Q(items[2])})
+		}
+		if string(items[2]) == out {
+			st.Tag("model=impl")
+		} else {
+			st.Tag("model≠impl (judged by C01)")
 		}
 	}
 	st.End()
